@@ -131,10 +131,10 @@ func c16Run(c Case) (Result, error) {
 	// non-BLS key
 	ek, _ := crypto.GeneratePrivateKey(crypto.ECDSAP256, rbytes(rr, 32))
 	if _, e := crypto.BLSGeneratePOP(ek); !crypto.IsNotBLSKeyError(e) {
-		return Result{}, fmt.Errorf("BLSGeneratePOP accepted a non-BLS key")
+		return Result{}, implViolation("BLSGeneratePOP accepted a non-BLS key")
 	}
 	if _, e := crypto.BLSVerifyPOP(ek.PublicKey(), pop); !crypto.IsNotBLSKeyError(e) {
-		return Result{}, fmt.Errorf("BLSVerifyPOP accepted a non-BLS key")
+		return Result{}, implViolation("BLSVerifyPOP accepted a non-BLS key")
 	}
 	if !in.IdPk {
 		ref2, _ := sk.Sign(pkBytes, ref)
